@@ -850,6 +850,8 @@ pub fn fixed_cases(thorough: bool) -> Vec<(&'static str, Vec<Op>)> {
 }
 
 pub fn run(run: &mut Run) {
+    // export / import allocate and free tens of megabytes per case: keep the pages (one arena per lane)
+    crate::isolate::tune_malloc(crate::env::workers() as i32);
     let thorough = run.tier.thorough();
     let mut outcomes = std::collections::HashSet::new();
     let mut unspec = 0u64;
